@@ -3,6 +3,7 @@ package props
 
 import (
 	"mcverif/engine"
+	"mcverif/props/c07"
 	"mcverif/props/c08"
 	"mcverif/props/c09"
 	"mcverif/props/c10"
@@ -15,6 +16,7 @@ import (
 )
 
 var Registry = map[string]engine.Spec{
+	"C07": c07.Spec,
 	"C08": c08.Spec,
 	"C09": c09.Spec,
 	"C10": c10.Spec,
@@ -24,4 +26,9 @@ var Registry = map[string]engine.Spec{
 	"C14": c14.Spec,
 	"C15": c15.Spec,
 	"C16": c16.Spec,
+}
+
+// Aux are helper entry points run in fresh child processes by some checks.
+var Aux = map[string]func(args []string) int{
+	"c07ref": c07.Aux,
 }
